@@ -413,6 +413,7 @@ package raft
 //@   flags inline lockheld
 //@ func operationManager.markAsVerified
 //@   flags inline
+//@   loop range r.pendingReadOnly invariant [Gqv] forall o *Operation :: old(allocated(o)) && old(o.quorumVerified) ==> o.quorumVerified
 
 //@ func Raft.electionLoop
 
@@ -561,7 +562,7 @@ package raft
 //@ func Raft.AddServer
 //@   at call r.appendConfiguration assert [guard] r.state == Leader && committedThisTermSpec(r) && !pendingSpec(r)
 //@   at call r.appendConfiguration assert [delta] (forall k string :: (k in configuration.Members) == (k in r.configuration.Members || k == id)) && (forall k string :: k != id && k in r.configuration.Members ==> configuration.Members[k] == r.configuration.Members[k] && configuration.IsVoter[k] == r.configuration.IsVoter[k]) && configuration.Members[id] == address && configuration.IsVoter[id] == isVoter
-//@   ensures [pending-after] Llast > old(Llast) ==> pendingSpec(r) && r.configuration.Index == Llast
+//@   ensures [pending-after] Llast > old(Llast) && old(r.committedConfiguration == nil || r.committedConfiguration.Index <= Llast) ==> pendingSpec(r) && r.configuration.Index == Llast
 //@   ensures [answered-or-pending] Llast == old(Llast) ==> answered[configurationFuture.responseCh]
 
 //@ func Raft.RemoveServer
